@@ -79,7 +79,13 @@ func newC13Env(maxsize int64, plan func(n int64, key int) (string, int, int64, t
 	e := &c13Env{plan: plan}
 	e.endCond = sync.NewCond(&sync.Mutex{})
 	var err error
-	e.lc, err = theine.NewBuilder[int, int64](maxsize).Cost(func(v int64) int64 { return 2 }).Loading(
+	// cost function: 2, except for values of keys with bit 15 set, which are far too heavy for any cache here
+	e.lc, err = theine.NewBuilder[int, int64](maxsize).Cost(func(v int64) int64 {
+		if v&0x8000 != 0 {
+			return 1 << 40
+		}
+		return 2
+	}).Loading(
 		func(ctx context.Context, k int) (theine.Loaded[int64], error) {
 			n := e.seq.Add(1)
 			if tok, ok := ctx.Value(tokKeyT{}).(*loadTok); ok {
@@ -579,6 +585,26 @@ func c13Scripted(r *Run, idx int) {
 			ttlKeys = append(ttlKeys, k)
 		}
 		r.Count("scripted_loads_checked", 1)
+	}
+	// oversize through the cost function: the loader returns cost 0, the cost function says "far too heavy"
+	{
+		const k = 0x8000 | 9
+		specs[k] = spec{cost: 0}
+		before := e.lc.EstimatedSize()
+		g := e.get(k)
+		e.lc.Wait()
+		after := e.lc.EstimatedSize()
+		if g.Kind != "value" || !g.Leader {
+			fail("load-not-run-or-failed", fmt.Sprintf("first Get(%#x) ended %s", k, g.Kind), g)
+		} else {
+			if after != before {
+				fail("oversize-load-admitted/cost-from-cost-function", fmt.Sprintf("a loaded value whose cost function result exceeds MaxSize %d changed EstimatedSize from %d to %d", maxsize, before, after), g)
+			}
+			if g2 := e.get(k); !g2.Leader {
+				fail("oversize-load-admitted/cost-from-cost-function", "after a load whose cost (from the cost function) exceeds MaxSize the next Get did not run the loader again", g2)
+			}
+		}
+		r.Count("scripted_cost_function_oversize_checked", 1)
 	}
 	// TTL of loaded values, probed only now: shifting virtual time lets the real one-second
 	// tick reclaim expired entries, which must not fall between two cost measurements above
